@@ -547,7 +547,7 @@ func (s *Syncer) runPeer(p *Peer) {
 			p.setErr(err)
 			return
 		}
-		verifEvent("s.slot.want", p.verifID(), 0)
+		verifEvent("s.slot.want", p.verifID(), len(inflight))
 		select {
 		case inflight <- struct{}{}:
 			verifEvent("s.slot.take", p.verifID(), len(inflight))
